@@ -55,7 +55,7 @@ def _walk_local(fn):
 
 def _simple_sig(fn):
     a = fn.args
-    return not (a.vararg or a.kwarg or a.posonlyargs)
+    return not (a.kwarg or a.posonlyargs)          # *args is bound to the tuple of the extra positional arguments
 
 
 def _bind(fn, call, is_method, recv):
@@ -68,10 +68,12 @@ def _bind(fn, call, is_method, recv):
         params = params[1:]
     if any(isinstance(x, ast.Starred) for x in call.args) or any(k.arg is None for k in call.keywords):
         return None
-    if len(call.args) > len(params):
+    if len(call.args) > len(params) and not a.vararg:
         return None
     for p, v in zip(params, call.args):
         out[p] = v
+    if a.vararg:
+        out[a.vararg.arg] = ast.Tuple(elts=list(call.args[len(params):]), ctx=ast.Load())
     kwonly = [x.arg for x in a.kwonlyargs]
     for k in call.keywords:
         if k.arg not in params and k.arg not in kwonly:
@@ -84,6 +86,8 @@ def _bind(fn, call, is_method, recv):
         if d is not None:
             out.setdefault(p.arg, d)
     need = set(allp) | set(kwonly)
+    if is_method and allp:
+        need.discard(allp[0]) if allp[0] in out else None
     if not need <= set(out):
         return None
     return out
